@@ -26,7 +26,8 @@ type Result struct {
 	Obs          map[string]int    `json:"obs"`
 	FP           map[string]string `json:"fp"` // per property fingerprint of the abstracted trace ("" = trigger absent)
 	Inconclusive string            `json:"inconclusive,omitempty"`
-	Sample       []string          `json:"sample,omitempty"` // abstracted trace (short)
+	Abandoned    string            `json:"abandoned,omitempty"` // the scenario was cut short by the harness for a reason of its own; nothing concluded
+	Sample       []string          `json:"sample,omitempty"`    // abstracted trace (short)
 	Fatal        string            `json:"fatal,omitempty"`
 	Evals        int               `json:"evals,omitempty"`    // batch results (PURE/NATS/RT engines)
 	Distinct     int               `json:"distinct,omitempty"` // distinct non-trivial cases in a batch result
@@ -129,6 +130,7 @@ type View struct {
 	Calls  map[int]*StoreCall
 	CallsL []*StoreCall
 	yields []Event
+	holds  []Event       // user-code calls held by the harness for a positive virtual duration (VT = begin, N = duration)
 	End    time.Duration // VT of teardown
 	EndSeq int
 	Insts  []string
@@ -193,10 +195,20 @@ func NewView(spec *Spec, ev []Event) *View {
 	flag := map[string]bool{}
 	open := map[string]*Term{}
 	openAPI := map[string][]*APICall{}
+	holdOpen := map[string]time.Duration{}
 	for idx, e := range ev {
 		switch e.Kind {
 		case "yield":
 			v.yields = append(v.yields, e)
+		case "break.hit":
+			if isUserCodeOp(e.Op) {
+				holdOpen[e.Inst+"|"+e.Op] = e.VT
+			}
+		case "break.release":
+			if t0, ok := holdOpen[e.Inst+"|"+e.Op]; ok && e.VT > t0 {
+				v.holds = append(v.holds, Event{VT: t0, N: int64(e.VT - t0), Inst: e.Inst, Op: e.Op})
+				delete(holdOpen, e.Inst+"|"+e.Op)
+			}
 		case "teardown":
 			if v.End < 0 {
 				v.End = e.VT
@@ -427,4 +439,8 @@ func sortedKeys(m map[string]int) []string {
 	}
 	sort.Strings(ks)
 	return ks
+}
+
+func isUserCodeOp(op string) bool {
+	return strings.HasPrefix(op, "log:") || strings.HasPrefix(op, "metric:") || strings.HasPrefix(op, "health:")
 }
